@@ -133,13 +133,15 @@ def prepare(need_cli=False, need_src=True, need_ovf=False):
                 shutil.copy(os.path.join(CACHE, "target-cli", "release", "sakuramml"), P.cli + ".tmp")
                 os.replace(P.cli + ".tmp", P.cli)
             # prune old cached binaries / sources
-            keep = P.hash
+            # (entries of other trees are kept for two hours: a check of another tree may be running at the same time)
+            keep = P.hash; old = time.time() - 7200
             for d in os.listdir(os.path.join(CACHE, "bin")):
-                if keep not in d:
-                    try: os.remove(os.path.join(CACHE, "bin", d))
+                fp = os.path.join(CACHE, "bin", d)
+                if keep not in d and os.path.getmtime(fp) < old:
+                    try: os.remove(fp)
                     except OSError: pass
             for d in os.listdir(CACHE):
-                if d.startswith("src-") and keep not in d:
+                if d.startswith("src-") and keep not in d and os.path.getmtime(os.path.join(CACHE, d)) < old:
                     shutil.rmtree(os.path.join(CACHE, d), ignore_errors=True)
             shutil.rmtree(SNAP, ignore_errors=True)
     P.build_error = None
